@@ -2,6 +2,8 @@ mod c01;
 mod c03;
 mod c04;
 mod c07;
+mod c09;
+mod c12;
 mod aio;
 mod drive;
 mod spaces;
@@ -32,6 +34,8 @@ fn main() {
                 "C03" => c03::replay(case),
                 "C04" => c04::replay(case),
                 "C07" => c07::replay(case),
+                "C09" => c09::replay(case),
+                "C12" => c12::replay(case),
                 _ => {
                     eprintln!("MACHINERY: no replay for {}", prop);
                     std::process::exit(2);
@@ -63,6 +67,8 @@ fn main() {
         "C03" => c03::run(&a),
         "C04" => c04::run(&a),
         "C07" => c07::run(&a),
+        "C09" => c09::run(&a),
+        "C12" => c12::run(&a),
         "selfcheck" => {
             println!("ok");
         }
